@@ -13,6 +13,7 @@ import F1Verif.Drive.Pool
 import F1Verif.Drive.Render
 import F1Verif.Drive.Gaussian
 import F1Verif.Drive.Cli
+import F1Verif.Drive.MiniGo
 /-!
 Line-protocol driver (`f1model`). One case per line on stdin:
 
@@ -26,6 +27,10 @@ open F1.Drive
 def dispatch (op : String) : Option (List String → List String → Option (String × String)) :=
   match op with
   | "verdict" => some verdict
+  | "mg.verdict" => some mgVerdict
+  | "mg.iter.seq" => some mgIterSeq
+  | "mg.jobcounter" => some mgJobcounter
+  | "mg.dist" => some mgDist
   | "dist" => some dist
   | "run" => some runOp
   | "cli" => some cliOp
